@@ -772,10 +772,10 @@ def _emit_fn(g, source, a, blocks, vacuity, probe_insert=None):
             outp.append(t.text)
             k += 1
         body = "".join(outp)
-    if a.get("mut_self"):
-        # R4f: a by-value `mut self` receiver (builder pattern) is not supported by Verus: `self` + a mutable local copy
-        if not re.search(r"\(\s*mut\s+self\b", sigtext):
-            raise ExtractError(f"anchor lost: `mut self` receiver in {f.name}")
+    if re.search(r"\(\s*mut\s+self\b", sigtext):
+        # R4f: a by-value `mut self` receiver (builder pattern) is not supported by Verus: `self` + a mutable local copy.
+        # Applied to every extracted function with such a receiver (the `mut_self` flag of older templates is a no-op):
+        # whether the receiver binding is declared `mut` is not part of a function's interface.
         sigtext = re.sub(r"\(\s*mut\s+self\b", "(self", sigtext, count=1)
         tk = tokenize(body)
         renamed = "".join(("r4_self" if (t.kind == "ident" and t.text == "self") else t.text) for t in tk)
